@@ -574,6 +574,7 @@ pub fn unspecified_destination(r: &mut Report, seed: u64) {
     r.eval();
     let mut rng = Rng::new(seed);
     let w = World::with_cfg(seed, NetCfg { lat_min: MS, lat_max: 30 * MS, random_ties: true }, TraceLevel::Off);
+    w.set_local_delivery(true);
     // the third party: its own IP on another port, its own IP on port P, or a process on the node's own host
     // (loopback) on another port. A request sent to 0.0.0.0:P is delivered to port P of the sending host, so
     // only loopback:P is "the address the request was sent to".
